@@ -183,6 +183,34 @@ def check_exclusion(mode_name, seq, fs, res):
     except Exception:  # noqa: BLE001
         res.notes['compile_exception'] += 1
         return
+    # an exclusion does not change how the inclusions of the same call are read - whether it comes before or after them,
+    # inline, split, or through NEGATEALL's implicit match-everything inclusion
+    try:
+        alone = mod.compile(text, flags=fl)
+        every = mod.compile('**' if mode_name == 'glob' else '*', flags=fl | (G.GLOBSTAR if mode_name == 'glob' else 0))
+        variants = [('excl-first', mod.compile(['!zz', text], flags=fl | mod.NEGATE), alone),
+                    ('excl-last', mod.compile([text, '!zz'], flags=fl | mod.NEGATE), alone),
+                    ('excl-arg', mod.compile(text, flags=fl, exclude='zz'), alone),
+                    ('negateall', mod.compile('!' + text, flags=fl | mod.NEGATE | mod.NEGATEALL), every)]
+        if '|' not in text:
+            variants.append(('split-first', mod.compile('!zz|' + text, flags=fl | mod.NEGATE | mod.SPLIT), alone))
+    except Exception:  # noqa: BLE001
+        variants = []
+    for how, mm, ref in variants:
+        gi = [r.pattern for r in impl.wcregexp(mm)._include]
+        wi = [r.pattern for r in impl.wcregexp(ref)._include]
+        res.n['evaluations'] += 1
+        if gi == wi:
+            res.outcomes.add('incl-text-equal')
+            continue
+        from wcmatch import _wcmatch
+        c3 = langcmp.equal(_wcmatch.WcRegexp(tuple(impl.wcregexp(mm)._include)), _wcmatch.WcRegexp(tuple(impl.wcregexp(ref)._include)), False)
+        res.n['states'] += c3.states
+        res.n['transitions'] += c3.transitions
+        res.outcomes.add('incl-lang-equal' if c3.witness is None else 'incl-lang-differ')
+        if c3.witness is not None:
+            res.add_violation(ID, run.viol('inclusion-changed-by-exclusion', {'mode': mode_name, 'pattern': text, 'flags': fs,
+                                           'name': c3.witness, 'how': how}, {'included': c3.accs[1]}, {'included': c3.accs[0]}))
     want = [r.pattern for r in impl.wcregexp(c)._include]
     for how, mm in (('exclude=', a), ('inline', b)):
         got = [r.pattern for r in impl.wcregexp(mm)._exclude]
@@ -206,7 +234,9 @@ def check_exclusion(mode_name, seq, fs, res):
 # ---------------------------------------------------------------- planning
 
 def menus():
-    inner = pat.leaves('a.', pat.BR_CORE + ['[.]', '[!.]'])
+    # `[!z-a]`: a negated bracket whose only range is reversed means "any character" - and is still a bracket at the
+    # start of a segment
+    inner = pat.leaves('a.', pat.BR_CORE + ['[.]', '[!.]', '[!z-a]'])
     top = inner + [('star', 2), ('sep', 1, False), ('sep', 1, True)]
     return inner, top
 
@@ -302,6 +332,27 @@ def replay(v):
             kept = match(inp['name'], ['**' if inp['mode'] == 'glob' else '*', '!' + p], flags=fl | mod.NEGATE | mod.DOTMATCH | G.GLOBSTAR * (inp['mode'] == 'glob'))
         alone = match(inp['name'], p, flags=fl | mod.DOTMATCH)
         return {'violates': kept == alone, 'observed': {'kept': kept, 'matches_alone_with_DOTMATCH': alone}}
+    if v['kind'] == 'inclusion-changed-by-exclusion':
+        mod = G if inp['mode'] == 'glob' else F
+        fl = gflags(inp['flags']) if inp['mode'] == 'glob' else fflags(inp['flags'])
+        match = mod.globmatch if inp['mode'] == 'glob' else mod.fnmatch
+        n, how = inp['name'], inp['how']
+        if how == 'negateall':
+            got = match(n, '!' + p, flags=fl | mod.NEGATE | mod.NEGATEALL) or match(n, p, flags=fl | mod.DOTMATCH)
+            want = match(n, '**' if inp['mode'] == 'glob' else '*', flags=fl | (G.GLOBSTAR if inp['mode'] == 'glob' else 0))
+        else:
+            want = match(n, p, flags=fl)
+            if how == 'excl-first':
+                got = match(n, ['!zz', p], flags=fl | mod.NEGATE)
+            elif how == 'excl-last':
+                got = match(n, [p, '!zz'], flags=fl | mod.NEGATE)
+            elif how == 'excl-arg':
+                got = match(n, p, flags=fl, exclude='zz')
+            else:
+                got = match(n, '!zz|' + p, flags=fl | mod.NEGATE | mod.SPLIT)
+            if match(n, 'zz', flags=fl | mod.DOTMATCH):
+                return {'violates': False, 'observed': 'name is the excluded one'}
+        return {'violates': bool(got) != bool(want), 'observed': {'with_exclusion': got, 'alone': want}}
     if inp['mode'] == 'glob':
         got = G.compile(p, flags=gflags(inp['flags'])).match(inp['name'])
         if v['kind'] == 'pathlib-match-differs':
